@@ -163,7 +163,8 @@ func genFM(r *lib.Rand, h *History, i int) {
 		amt := func(lo, hi int64) string { return big.NewInt(r.Range(lo, hi)).String() }
 		h.Steps = []Step{{"create_pool", []string{"1", amt(100000, 1000000), amt(1, 1000)}}, {"stake", []string{amt(1, 1000000)}},
 			{"blocks", []string{"2"}}, {"harvest", nil}, {"create_pool", []string{"2", amt(100000, 1000000), amt(1, 1000)}},
-			{"create_pool", []string{"3", amt(100000, 1000000), amt(1, 1000)}}, {"unstake", []string{amt(1, 1000)}}}
+			{"create_pool", []string{"3", amt(100000, 1000000), amt(1, 1000)}}, {"unstake", []string{amt(1, 1000)}},
+			{"adjust", []string{amt(1, 100000), amt(1, 1000)}}, {"destroy", nil}}
 		return
 	}
 	nvar := 1 + r.Weighted(6, 2, 1)
